@@ -489,8 +489,8 @@ func tableKeys(s string) []string {
 // reviewed patterns of private package-level regular expressions; canonical forms name such a
 // variable by its pattern (core.RxName), so a rule that mentions one of these also pins its text.
 var (
-	rxDisplay       = core.RxName(`(?i)display:\s*([\w-]+)\s*(?:;|$)`)
-	rxVisibility    = core.RxName(`(?i)(?:^|[\s;])visibility:\s*(:?hidden|collapse)`)
+	rxDisplay       = core.RxName(`(?i)(?:^|[\s;])display\s*:\s*([\w-]+)\s*(?:!\s*important\s*)?(?:;|$)`)
+	rxVisibility    = core.RxName(`(?i)(?:^|[\s;])visibility\s*:\s*(:?hidden|collapse)`)
 	rxSrcset        = core.RxName(`(?i)(\S+)(\s+[\d.]+[xw])?(\s*(?:,|$))`)
 	rxTitleSep      = core.RxName(`(?i) [\|\-\\/>»] `)
 	rxUnlikely      = core.RxName(`(?i)-ad-|ai2html|banner|breadcrumbs|combx|comment|community|cover-wrap|disqus|extra|footer|gdpr|header|legends|menu|related|remark|replies|rss|shoutbox|sidebar|skyscraper|social|sponsor|supplemental|ad-break|agegate|pagination|pager|popup|yom-remote`)
